@@ -20,7 +20,11 @@ for cls in (ENFA, NFA, DFA):
                   ('_start_state', 'I'), ('start_states', 'I'), ('_final_states', 'F'), ('final_states', 'F')]:
         W.fields[(cls.name, py)] = f
     W.fields[(cls.name, '_transition_function')] = (lambda o: NTFV.make(T=o.T))
+for cls in (ENFA, NFA, DFA):
+    W.fields[(cls.name, '_transition_function', 'set')] = (lambda base, val: base.t.update(base, 'T', val.t.get(val, 'T')))
+NONE_SY = Const('NONE_SY', Sy.sort()); W.none_consts['Sy'] = NONE_SY
 W.identity_fns |= {'to_state', 'to_symbol'}
+W.subtypes = {('DFA', 'NFA'), ('DFA', 'ENFA'), ('NFA', 'ENFA')}
 
 def empty_rel():
     p, q = Consts('er_p er_q', St.sort()); a = Const('er_a', Sy.sort())
@@ -48,6 +52,7 @@ SeqSy = TSeq(Sy)
 Run = Function('Run', RelT.sort(), SetSt.sort(), SeqSy.sort(), IntSort(), SetSt.sort())
 W_ = Const('W_', SeqSy.sort()); i_ = Const('i_', IntSort())
 W.axioms += [
+    EPS != NONE_SY,
     ForAll([T_, x], ReachE(T_, x, x)),
     ForAll([T_, x, y, z], Implies(And(ReachE(T_, x, y), Select(T_, y, EPS, z)), ReachE(T_, x, z))),
     ForAll([T_, x], ReachA(T_, x, x)),
@@ -75,6 +80,15 @@ def WF(A):
 W.contract(Contract('NTFView.__call__', [('self', NTFV), ('s_from', St), ('symb_by', Sy)], ret=SetSt,
     pure=lambda o: Sym(SetSt, CallF(o.self.T.term, o.s_from.term, o.symb_by.term))))
 
+def edge(o, pp, aa, qq): return And(pp == o.s_from.term, aa == o.symb_by.term, qq == o.s_to.term)
+TFP = lambda V: [('self', V), ('s_from', St), ('symb_by', Sy), ('s_to', St)]
+# view-level contracts of the transition-function objects: the same formulas as the contracts proved on the concrete classes in
+# contracts/fa_concrete.py, with the representation function view(.) replaced by the field T
+W.contract(Contract('NTFView.add_transition', TFP(NTFV), ret=TInt, modifies=('self',),
+    ensures=lambda o, r, n: And(r.term == 1, ForAll([p, a, q], n.self.T[p, a, q] == Or(o.self.T[p, a, q], edge(o, p, a, q))))))
+W.contract(Contract('NTFView.remove_transition', TFP(NTFV), ret=TInt, modifies=('self',),
+    ensures=lambda o, r, n: And(r.term == If(o.self.T[o.s_from, o.symb_by, o.s_to], 1, 0),
+                                ForAll([p, a, q], n.self.T[p, a, q] == And(o.self.T[p, a, q], Not(edge(o, p, a, q)))))))
 # ------------------------------------------------------------------ contracts: mutators (every automaton class)
 def post_add_start(o, r, n):
     A, B = o.self, n.self
@@ -86,6 +100,16 @@ def post_add_trans(o, r, n):
     A, B = o.self, n.self; pf, sy, pt = o.s_from.term, o.symb_by.term, o.s_to.term
     return And(B.T == Store(A.T.term, pf, sy, pt, True), B.Q == Store(Store(A.Q.term, pf, True), pt, True),
                B.Sig == If(sy == EPS, A.Sig.term, Store(A.Sig.term, sy, True)), B.I == A.I, B.F == A.F)
+def post_rm_trans(o, r, n):
+    A, B = o.self, n.self
+    return And(ForAll([p, a, q], B.T[p, a, q] == And(A.T[p, a, q], Not(edge(o, p, a, q)))), B.Q == A.Q, B.Sig == A.Sig, B.I == A.I, B.F == A.F,
+               r.term == If(A.T[o.s_from, o.symb_by, o.s_to], 1, 0))
+def post_rm_start(o, r, n):
+    A, B = o.self, n.self
+    return And(B.I == Store(A.I.term, o.state.term, False), B.Q == A.Q, B.F == A.F, B.T == A.T, B.Sig == A.Sig, r.term == If(A.I[o.state], 1, 0))
+def post_dfa_rm_start(o, r, n):
+    A, B = o.self, n.self; only = ForAll([y], A.I[y] == (y == o.state.term))
+    return And(B.I == If(only, K(St.sort(), False), A.I.term), B.Q == A.Q, B.F == A.F, B.T == A.T, B.Sig == A.Sig, r.term == If(only, 1, 0))
 def post_dfa_add_start(o, r, n):
     A, B = o.self, n.self
     return And(B.I == single(o.state), B.Q == Store(A.Q.term, o.state.term, True), B.F == A.F, B.T == A.T, B.Sig == A.Sig)
@@ -95,6 +119,10 @@ for cls in (ENFA, NFA, DFA):
     W.contract(Contract(f'{cls.name}.add_final_state', [('self', cls), ('state', St)], ret=TInt, ensures=post_add_final, modifies=('self',)))
     W.contract(Contract(f'{cls.name}.is_final_state', [('self', cls), ('state', St)], ret=TBool,
                         pure=lambda o: Sym(TBool, o.self.F[o.state])))
+for cls in (ENFA, NFA, DFA):
+    W.contract(Contract(f'{cls.name}.remove_transition', [('self', cls), ('s_from', St), ('symb_by', Sy), ('s_to', St)], ret=TInt, ensures=post_rm_trans, modifies=('self',)))
+    W.contract(Contract(f'{cls.name}.remove_start_state', [('self', cls), ('state', St)], ret=TInt,
+                        ensures=post_dfa_rm_start if cls is DFA else post_rm_start, modifies=('self',)))
 TP = lambda cls: [('self', cls), ('s_from', St), ('symb_by', Sy), ('s_to', St)]
 W.contract(Contract('ENFA.add_transition', TP(ENFA), ret=TInt, ensures=post_add_trans, modifies=('self',)))
 W.contract(Contract('NFA.add_transition', TP(NFA), ret=TInt, ensures=post_add_trans, modifies=('self',),
@@ -130,6 +158,45 @@ W.contract(Contract('ENFA.eclose_iterable', [('self', ENFA), ('states', SetSt)],
 W.contract(Contract('ENFA.accepts', [('self', ENFA), ('word', SeqSy)], ret=TBool,
     ensures=lambda o, r, n: r.term == Exists([f_], And(o.self.F[f_], Select(Run(o.self.T.term, o.self.I.term, o.word.term, Length(o.word.term)), f_))),
     loops={'0': lambda e, i: e.current_states == Run(e.self.T.term, e.self.I.term, e.word.term, i.term)}))
+
+# ------------------------------------------------------------------ NFA / DFA acceptance (no epsilon closure in the code)
+RunN = Function('RunN', RelT.sort(), SetSt.sort(), SeqSy.sort(), IntSort(), SetSt.sort())
+j_ = Const('j_', IntSort())
+W.axioms += [
+    ForAll([T_, I_, W_], RunN(T_, I_, W_, 0) == I_),
+    ForAll([T_, I_, W_, i_], Implies(And(i_ >= 0, i_ < Length(W_)), RunN(T_, I_, W_, i_ + 1) == StepF(T_, RunN(T_, I_, W_, i_), W_[i_]))),
+]
+# induction lemma (not provable by the SMT solver; proved in Lean: bridge/runn.lean `runN_empty_absorbing`): once no state is left, none comes back
+RUNN_EMPTY = ForAll([T_, I_, W_, i_, j_], Implies(And(0 <= i_, i_ <= j_, j_ <= Length(W_), ForAll([x], Not(Select(RunN(T_, I_, W_, i_), x)))),
+                                                  ForAll([x], Not(Select(RunN(T_, I_, W_, j_), x)))))
+W.axioms.append(RUNN_EMPTY)
+W.lemmas = {'runN_empty_absorbing': 'bridge/runn.lean'}
+def inherit(cls, base_key, **over):
+    """a method inherited unchanged: the same contract with the receiver type of the subclass"""
+    import copy as _c
+    c0 = W.contracts[base_key]; c = _c.copy(c0); c.key = f"{cls.name}.{base_key.split('.', 1)[1]}"
+    c.params = [(n, cls if n == 'self' else t) for n, t in c0.params]
+    for k, v in over.items(): setattr(c, k, v)
+    W.contract(c); return c
+for cls in (NFA, DFA):
+    inherit(cls, 'ENFA._get_next_states_iterable')
+def accN_post(o, r, n):
+    return r.term == Exists([f_], And(o.self.F[f_], Select(RunN(o.self.T.term, o.self.I.term, o.word.term, Length(o.word.term)), f_)))
+W.contract(Contract('NFA.accepts', [('self', NFA), ('word', SeqSy)], ret=TBool, ensures=accN_post,
+    loops={'0': lambda e, i: e.current_states == RunN(e.self.T.term, e.self.I.term, e.word.term, i.term)}))
+def WFDv(A):
+    return And(WF(A), ForAll([p, a, q, q2], Implies(And(A.T[p, a, q], A.T[p, a, q2]), q == q2)),
+               ForAll([p, q], Implies(And(A.I[p], A.I[q]), p == q)))
+W.contract(Contract('DFA.accepts', [('self', DFA), ('word', SeqSy)], ret=TBool, requires=lambda o: WFDv(o.self), ensures=accN_post,
+    locals={'current_state': St},
+    loops={'0': lambda e, i: ForAll([x], Select(RunN(e.self.T.term, e.self.I.term, e.word.term, i.term), x) ==
+                                            And(e.current_state.term != NONE_ST, x == e.current_state.term))}))
+W.contract(Contract('NFA.is_deterministic', [('self', NFA)], ret=TBool,
+    ensures=lambda o, r, n: r.term == And(ForAll([p, q], Implies(And(o.self.I[p], o.self.I[q]), p == q)),
+                                         ForAll([p, a, q, q2], Implies(And(o.self.T[p, a, q], o.self.T[p, a, q2]), q == q2)))))
+W.contract(Contract('DFA.is_deterministic', [('self', DFA)], ret=TBool, requires=lambda o: WFDv(o.self),
+    ensures=lambda o, r, n: r.term == And(ForAll([p, q], Implies(And(o.self.I[p], o.self.I[q]), p == q)),
+                                         ForAll([p, a, q, q2], Implies(And(o.self.T[p, a, q], o.self.T[p, a, q2]), q == q2)))))
 
 # ------------------------------------------------------------------ is_empty
 def reach_from_I(A, yv):
@@ -188,6 +255,7 @@ un = Function('un', St.sort(), SetSt.sort())         # its inverse; exists iff n
 NAME_INJECTIVE = ForAll([S_], un(nm(S_)) == S_)
 W.axioms.append(NAME_INJECTIVE)
 W.premises = {'name_injective': NAME_INJECTIVE}
+W.axioms.append(ForAll([S_], nm(S_) != NONE_ST))
 W.contract(Contract('fn.to_single_state', [('l_states', SetSt)], ret=St, pure=lambda o: Sym(St, nm(o.l_states.term))))
 # StateNamer (fix 60ce915): get_merged / get_pair are cached and never give one name to two keys.  At the call sites the namer is
 # therefore modelled as a lazily sampled *injective* function (nm / pr2 with inverses un / up1, up2): for every execution the final
@@ -200,11 +268,14 @@ SS = Const('SS', SetSt.sort())
 def nonempty(X): return Exists([r_], Select(X, r_))
 def G(ecl, Tm, S, sym): return If(ecl, EclF(Tm, StepF(Tm, S, sym)), StepF(Tm, S, sym))
 def hasfinal(A, S): return Exists([f_], And(Select(S, f_), A.F[f_]))
+def wf_res(B):
+    return And(ForAll([p, a, q], Implies(B.T[p, a, q], And(B.Q[p], B.Q[q], Or(a == EPS, B.Sig[a])))),
+               ForAll([p], Implies(B.I[p], B.Q[p])), ForAll([p], Implies(B.F[p], B.Q[p])), Not(B.Sig[EPS]), Not(B.Q[NONE_ST]))
 def det_inv(kind):
     def inv(e, done):
         A, Dm, pr, tp, Tm, ecl = e.self, e.dfa, e.processed, e.to_process, e.self.T.term, e.eclose.term
         d0 = nm(e.start_eclose.term)
-        cl = [Dm.I == single(d0), pr[d0], e.start_state == d0,
+        cl = [Dm.I == single(d0), pr[d0], e.start_state == d0, wf_res(Dm),
               ForAll([SS], And(tp[SS] >= 0, tp[SS] <= 1)), ForAll([SS], Implies(tp[SS] > 0, pr[nm(SS)])),
               ForAll([d], Implies(pr[d], nm(un(d)) == d))]
         handled = lambda dd: And(pr[dd], tp[un(dd)] == 0)
@@ -238,7 +309,8 @@ def det_post(o, r, n):
                ForAll([d, a], Implies(And(inD(d), a != EPS, ForAll([d2], Not(B.T[d, a, d2]))),
                                       ForAll([y], Not(Select(G(ecl, Tm, un(d), a), y))))),
                ForAll([d], Implies(inD(d), B.F[d] == hasfinal(A, un(d)))),
-               ForAll([d, a, d2, y], Implies(And(B.T[d, a, d2], B.T[d, a, y]), d2 == y)))     # deterministic
+               ForAll([d, a, d2, y], Implies(And(B.T[d, a, d2], B.T[d, a, y]), d2 == y)),     # deterministic
+               wf_res(B))
 W.contract(Contract('ENFA._to_deterministic_internal', [('self', ENFA), ('eclose', TBool)], ret=DFA, fresh_result=True,
     requires=lambda o: WF(o.self), ensures=det_post,
     locals={'state': SetSt},
@@ -426,61 +498,108 @@ W.contract(Contract('ENFA.copy', [('self', ENFA)], ret=ENFA, fresh_result=True, 
            '2.1': lambda e, done: And(copy_inv('2.1')(e, done), ForAll([p], Implies(e.enfa.Q[p], e.self.Q[p])), ForAll([a], Implies(e.enfa.Sig[a], e.self.Sig[a])),
                                       e.states == CallF(e.self.T.term, e.state.term, EPS))}))
 
-# ------------------------------------------------------------------ get_complement
-TRASH = Const('TRASH', St.sort())                    # State("TrashNode")
-W.axioms.append(TRASH != NONE_ST)
-def state_ctor(eng, e, st):
-    if len(e.args) == 1 and isinstance(e.args[0], ast.Constant) and e.args[0].value == 'TrashNode': return Sym(St, TRASH)
-    raise Exception('State(...) with a non-modelled argument')
+# ------------------------------------------------------------------ deterministic automata: copy, to_deterministic wrappers
 import ast
+TRASH = Const('TRASH', St.sort())                    # State("TrashNode")
+prime = Function('prime', St.sort(), St.sort())      # State(str(s.value) + "'")
+W.axioms.append(TRASH != NONE_ST)
+W.axioms.append(ForAll([x], prime(x) != NONE_ST))
+def state_ctor(eng, e, st):
+    a = e.args[0] if len(e.args) == 1 else None
+    if isinstance(a, ast.Constant) and a.value == 'TrashNode': return Sym(St, TRASH)
+    if isinstance(a, ast.BinOp) and isinstance(a.op, ast.Add) and isinstance(a.right, ast.Constant) and isinstance(a.left, ast.Call) \
+            and getattr(a.left.func, 'id', None) == 'str' and isinstance(a.left.args[0], ast.Attribute) and a.left.args[0].attr == 'value':
+        v = eng.ev(a.left.args[0].value, st)
+        if v.t == St: return Sym(St, prime(v.term))
+    raise Exception('State(...) with a non-modelled argument')
 W.ctors['State'] = state_ctor
+def functional(Tm): return ForAll([p, a, q, q2], Implies(And(Select(Tm, p, a, q), Select(Tm, p, a, q2)), q == q2))
+def wf_edges(B):
+    return And(ForAll([p, a, q], Implies(B.T[p, a, q], And(B.Q[p], B.Q[q], Or(a == EPS, B.Sig[a])))),
+               ForAll([p], Implies(B.I[p], B.Q[p])), ForAll([p], Implies(B.F[p], B.Q[p])))
+def WFD(A):          # class invariant of DeterministicFiniteAutomaton objects
+    return And(WF(A), functional(A.T.term), ForAll([p, a, q], Implies(A.T[p, a, q], a != EPS)),
+               ForAll([p, q], Implies(And(A.I[p], A.I[q]), p == q)))
 def post_remove_final(o, r, n):
     A, B = o.self, n.self
     return And(B.F == Store(A.F.term, o.state.term, False), B.Q == A.Q, B.I == A.I, B.T == A.T, B.Sig == A.Sig)
-W.contract(Contract('ENFA.remove_final_state', [('self', ENFA), ('state', St)], ret=TInt, ensures=post_remove_final, modifies=('self',)))
-def dead(A, s, sym):          # no successor of the eps-closure of s under sym
-    return Not(Exists([e_, q2], And(ReachE(A.T.term, s, e_), A.T[e_, sym, q2])))
-def gc_T(e, cov, trash_done):
-    A, B = e.self, e.enfa
-    return ForAll([p, a, q], B.T[p, a, q] == Or(A.T[p, a, q],
-                  And(A.Q[p], A.Sig[a], q == TRASH, dead(A, p, a), cov(p, a)),
-                  And(p == TRASH, q == TRASH, trash_done(a))))
-def gc_F_final(e):
-    A, B = e.self, e.enfa
-    return ForAll([p], B.F[p] == Or(And(A.Q[p], Not(A.F[p])), p == TRASH))
-def gc_wf(B): return And(wf_edges(B), Not(B.Sig[EPS]), Not(B.Q[NONE_ST]), B.Q[TRASH])
+for cls in (ENFA, NFA, DFA):
+    W.contract(Contract(f'{cls.name}.remove_final_state', [('self', cls), ('state', St)], ret=TInt, ensures=post_remove_final, modifies=('self',)))
+# the transition function object of a DFA returns a list with at most one state
+DTFV = TRec('DTFView', [('T', RelT)])
+W.fields[(DFA.name, '_transition_function')] = (lambda o: DTFV.make(T=o.T))
+SeqSt = TSeq(St)
+W.contract(Contract('DTFView.__call__', [('self', DTFV), ('s_from', St), ('symb_by', Sy)], ret=SeqSt,
+    requires=lambda o: functional(o.self.T.term),
+    ensures=lambda o, r, n: Or(And(Length(r.term) == 0, ForAll([q], Not(o.self.T[o.s_from, o.symb_by, q]))),
+                               And(Length(r.term) == 1, o.self.T[o.s_from, o.symb_by, r.term[0]]))))
+def dcopy_inv(level):
+    def inv(e, done):
+        A, B = e.self, e.dfa
+        if level == '1': cov = done[p]
+        else: cov = Or(e.get('$done1')[p], And(p == e.state.term, done[a]))
+        return And(ForAll([p, a, q], B.T[p, a, q] == And(A.T[p, a, q], A.Q[p], A.Sig[a], cov)), B.I == A.I, B.F == A.F, wf_edges(B),
+                   ForAll([p], Implies(B.Q[p], A.Q[p])), ForAll([a], Implies(B.Sig[a], A.Sig[a])))
+    return inv
+W.contract(Contract('DFA.copy', [('self', DFA)], ret=DFA, fresh_result=True, requires=lambda o: WFD(o.self),
+    ensures=lambda o, r, n: And(r.T == o.self.T, r.I == o.self.I, r.F == o.self.F, WFD(r),
+                                ForAll([p], Implies(r.Q[p], o.self.Q[p])), ForAll([a], Implies(r.Sig[a], o.self.Sig[a]))),
+    loops={'0': lambda e, done: And(e.dfa.I == e.self.I, ForAll([p, a, q], Not(e.dfa.T[p, a, q])), e.dfa.F == done,
+                                    ForAll([p], Implies(e.dfa.Q[p], e.self.Q[p])), ForAll([a], Not(e.dfa.Sig[a])), wf_edges(e.dfa)),
+           '1': dcopy_inv('1'), '1.0': dcopy_inv('1.0')}))
+W.contract(Contract('ENFA.to_deterministic', [('self', ENFA)], ret=DFA, fresh_result=True, requires=lambda o: WF(o.self),
+    ensures=lambda o, r, n: det_post(NS({'self': o.self, 'eclose': Sym(TBool, BoolVal(True))}), r, None)))
+W.contract(Contract('NFA.to_deterministic', [('self', NFA)], ret=DFA, fresh_result=True, requires=lambda o: WF(o.self),
+    ensures=lambda o, r, n: det_post(NS({'self': o.self, 'eclose': Sym(TBool, BoolVal(False))}), r, None)))
+W.contract(Contract('NFA._to_deterministic_internal', [('self', NFA), ('eclose', TBool)], ret=DFA, fresh_result=True,
+    requires=lambda o: WF(o.self), ensures=det_post))           # inherited from EpsilonNFA: same body, verified there
+W.contract(Contract('DFA.to_deterministic', [('self', DFA)], ret=DFA, ensures=lambda o, r, n: r == o.self))
+
+# ------------------------------------------------------------------ get_complement (after fix d7a29e1: determinise, then flip)
+def nonemptyS(X): return Exists([r_], Select(X, r_))
+def gc_struct(e, C, Sigma, trash, B, flipped, cov, trash_done):
+    """B is C with: finals flipped on `flipped` states, trash final, trash edges where C has no successor (as far as `cov`), trash loops"""
+    return And(
+        ForAll([p, a, q], B.T[p, a, q] == Or(C.T[p, a, q], And(C.Q[p], Sigma[a], q == trash, Not(Exists([x], C.T[p, a, x])), cov(p, a)),
+                                             And(p == trash, q == trash, trash_done(a)))),
+        ForAll([p], B.F[p] == Or(And(C.F[p], Not(flipped(p))), And(C.Q[p], Not(C.F[p]), flipped(p)), p == trash)),
+        B.I == If(nonemptyS(C.I.term), C.I.term, single(trash)),
+        ForAll([p], B.Q[p] == Or(C.Q[p], p == trash)),
+        ForAll([a], B.Sig[a] == Or(C.Sig[a], Sigma[a])))
 def gc_inv(level):
     def inv(e, done):
-        A, B = e.self, e.enfa
-        no = lambda aa: BoolVal(False)
+        A, B = e.self, e.enfa; D = e.get('$ret.to_deterministic'); C0 = e.get('$ret.copy'); Sigma = A.Sig
+        no = lambda *a_: BoolVal(False); yes = lambda *a_: BoolVal(True)
+        base = [det_post(NS({'self': A, 'eclose': Sym(TBool, BoolVal(True))}), D, None), C0.T == D.T, C0.I == D.I, C0.F == D.F, WFD(C0),
+                ForAll([p], Implies(C0.Q[p], D.Q[p])), ForAll([a], Implies(C0.Sig[a], D.Sig[a])), WF(A)]
         if level == '0':
-            return And(gc_T(e, lambda pp, aa: BoolVal(False), no), B.I == A.I, gc_wf(B),
-                       ForAll([p], B.F[p] == Or(And(A.F[p], Not(done[p])), And(A.Q[p], Not(A.F[p]), done[p]), p == TRASH)))
-        if level == '1':   cov = lambda pp, aa: done[pp]
-        elif level == '1.0': cov = lambda pp, aa: Or(e.get('$done1')[pp], And(pp == e.state.term, done[aa]))
-        elif level == '1.0.0': cov = lambda pp, aa: Or(e.get('$done1')[pp], And(pp == e.state.term, e.get('$done1.0')[aa]))
-        elif level == '2': cov = lambda pp, aa: BoolVal(True)
-        cl = [gc_T(e, cov, (lambda aa: done[aa]) if level == '2' else no), B.I == A.I, gc_F_final(e), gc_wf(B)]
-        if level == '1.0.0':
-            cl += [ForAll([e_], e.eclose[e_] == ReachE(A.T.term, e.state.term, e_)),
-                   ForAll([q], Implies(e.state_to[q] > 0, Exists([e_], And(done[e_], A.T[e_, e.symbol.term, q])))),
-                   ForAll([e_, q], Implies(And(done[e_], A.T[e_, e.symbol.term, q]), e.state_to[q] > 0)),
-                   ForAll([q], e.state_to[q] >= 0)]
-        return And(cl)
+            return And(base + [B.T == C0.T, B.I == C0.I, B.F == C0.F, B.Q == C0.Q, ForAll([a], B.Sig[a] == Or(C0.Sig[a], done[a]))])
+        C = NS({'T': C0.T, 'I': C0.I, 'F': C0.F, 'Q': e.states, 'Sig': Sym(SetSy, Lambda([a], Or(C0.Sig[a], Sigma[a])))})
+        common = base + [e.states == C0.Q, e.finals == C0.F]
+        if level == '1':
+            return And(common + [B.T == C0.T, B.I == C0.I, B.F == C0.F, B.Q == C0.Q, ForAll([a], B.Sig[a] == Or(C0.Sig[a], Sigma[a])), e.trash.term != NONE_ST])
+        tr = e.trash.term; fresh = [Not(e.states[tr]), tr != NONE_ST]
+        if level == '2': return And(common + fresh + [gc_struct(e, C, Sigma, tr, B, lambda pp: done[pp], no, no)])
+        if level == '3': return And(common + fresh + [gc_struct(e, C, Sigma, tr, B, yes, lambda pp, aa: done[pp], no)])
+        if level == '3.0': return And(common + fresh + [gc_struct(e, C, Sigma, tr, B, yes, lambda pp, aa: Or(e.get('$done3')[pp], And(pp == e.state.term, done[aa])), no)])
+        if level == '4': return And(common + fresh + [gc_struct(e, C, Sigma, tr, B, yes, yes, lambda aa: done[aa])])
     return inv
-def gc_post(o, r, n):
-    A = o.self
-    return And(r.I == A.I, WF(r), ForAll([p], r.F[p] == Or(And(A.Q[p], Not(A.F[p])), p == TRASH)),
-               ForAll([p, a, q], r.T[p, a, q] == Or(A.T[p, a, q], And(A.Q[p], A.Sig[a], q == TRASH, dead(A, p, a)),
-                                                    And(p == TRASH, q == TRASH, A.Sig[a]))))
-W.contract(Contract('ENFA.get_complement', [('self', ENFA)], ret=ENFA, fresh_result=True,
-    requires=lambda o: And(WF(o.self), Not(o.self.Q[TRASH])),          # premise #trash_fresh
-    ensures=gc_post, locals={'state_to': TBag(St)},
-    loops={k: gc_inv(k) for k in ('0', '1', '1.0', '1.0.0', '2')},
-    loop_post={'1.0.0': lambda e: Exists([q], e.state_to[q] > 0) == Not(dead(e.self, e.state.term, e.symbol.term))}))
+def gc_post(o, r, n, g):
+    A, D, C0, tr = o.self, g.D, g.C, g.trash.term
+    C = NS({'T': C0.T, 'I': C0.I, 'F': C0.F, 'Q': C0.Q, 'Sig': Sym(SetSy, Lambda([a], Or(C0.Sig[a], A.Sig[a])))})
+    yes = lambda *a_: BoolVal(True)
+    return And(det_post(NS({'self': A, 'eclose': Sym(TBool, BoolVal(True))}), D, None),
+               C0.T == D.T, C0.I == D.I, C0.F == D.F, ForAll([p], Implies(C0.Q[p], D.Q[p])), WFD(C0),
+               Not(C0.Q[tr]), tr != NONE_ST,
+               gc_struct(None, C, A.Sig, tr, r, yes, yes, lambda aa: A.Sig[aa]),
+               WFD(r))
+W.contract(Contract('ENFA.get_complement', [('self', ENFA)], ret=DFA, fresh_result=True,
+    requires=lambda o: WF(o.self), ensures=gc_post,
+    ghosts={'D': DFA, 'C': DFA, 'trash': St},
+    ghost_witness=lambda o, e: {'D': e.get('$ret.to_deterministic'), 'C': e.get('$ret.copy'), 'trash': e.trash},
+    loops={k: gc_inv(k) for k in ('0', '1', '2', '3', '3.0', '4')}))
 
 # ------------------------------------------------------------------ is_deterministic
-def functional(Tm): return ForAll([p, a, q, q2], Implies(And(Select(Tm, p, a, q), Select(Tm, p, a, q2)), q == q2))
 W.contract(Contract('NTFView.is_deterministic', [('self', NTFV)], ret=TBool, pure=lambda o: Sym(TBool, functional(o.self.T.term))))
 W.contract(Contract('ENFA.is_deterministic', [('self', ENFA)], ret=TBool, requires=lambda o: WF(o.self),
     hints=lambda o, e, r: [ForAll([x], closure_induction(ReachE, o.self.T.term, x, single(x), lambda yy, zz: o.self.T[yy, EPS, zz]))],
@@ -494,15 +613,18 @@ for cls in (ENFA, NFA, DFA):
         ensures=lambda o, r, n: And(n.self.Sig == Store(o.self.Sig.term, o.symbol.term, True), n.self.Q == o.self.Q,
                                     n.self.T == o.self.T, n.self.I == o.self.I, n.self.F == o.self.F)))
 def gd_post(o, r, n, g):
-    A, Bo, C, D = o.self, o.other, g.C, g.D          # C: the copy of `other` enlarged by self's symbols; D: its complement
-    return And(C.T == Bo.T, C.I == Bo.I, C.F == Bo.F, WF(C), Not(C.Q[TRASH]),
+    A, Bo, C, K = o.self, o.other, g.C, g.K          # C: the copy of `other` enlarged by self's symbols; K: its complement (a DFA)
+    Kv = ENFA.make(**{f: DFA.get(K, f) for f, _ in DFA.fields})
+    return And(C.T == Bo.T, C.I == Bo.I, C.F == Bo.F, WF(C),
                ForAll([a], Implies(A.Sig[a], C.Sig[a])), ForAll([a], Implies(C.Sig[a], Or(A.Sig[a], Bo.Sig[a]))),
-               gc_post(NS({'self': C}), D, None), gi_post(NS({'self': A, 'other': D}), r, None))
+               gc_post(NS({'self': C}), K, None, NS({'D': g.D, 'C': g.C2, 'trash': g.trash})), gi_post(NS({'self': A, 'other': Kv}), r, None))
 W.contract(Contract('ENFA.get_difference', [('self', ENFA), ('other', ENFA)], ret=ENFA, fresh_result=True,
-    requires=lambda o: And(WF(o.self), WF(o.other), Not(o.other.Q[TRASH])), ensures=gd_post,
-    ghosts={'C': ENFA, 'D': ENFA}, ghost_witness=lambda o, e: {'C': e.other, 'D': e.get('$ret.get_complement')},
+    requires=lambda o: And(WF(o.self), WF(o.other)), ensures=gd_post,
+    ghosts={'C': ENFA, 'K': DFA, 'D': DFA, 'C2': DFA, 'trash': St},
+    ghost_witness=lambda o, e: {'C': e.other, 'K': e.get('$ret.get_complement'), 'D': e.get('$ghost.get_complement.D'),
+                                'C2': e.get('$ghost.get_complement.C'), 'trash': e.get('$ghost.get_complement.trash')},
     loops={'0': lambda e, done: And(e.other.T == e.get('$old.other').T, e.other.I == e.get('$old.other').I,
-                                    e.other.F == e.get('$old.other').F, WF(e.other), Not(e.other.Q[TRASH]),
+                                    e.other.F == e.get('$old.other').F, WF(e.other),
                                     ForAll([p], Implies(e.other.Q[p], e.get('$old.other').Q[p])),
                                     ForAll([a], e.other.Sig[a] == Or(And(e.get('$old.other').Sig[a], e.other.Sig[a]), done[a])))}))
 
@@ -513,7 +635,21 @@ _P = 'pyformlang/finite_automaton/epsilon_nfa.py'
 TARGETS = {k: (_P, 'EpsilonNFA.' + k.split('.', 1)[1]) for k in
            ['ENFA._get_next_states_iterable', 'ENFA.eclose', 'ENFA.eclose_iterable', 'ENFA.accepts', 'ENFA.is_empty',
             'ENFA.reverse', 'ENFA._to_deterministic_internal', 'ENFA.remove_epsilon_transitions', 'ENFA.get_intersection',
-            'ENFA.copy', 'ENFA.get_complement', 'ENFA.is_deterministic', 'ENFA.get_difference']}
+            'ENFA.copy', 'ENFA.get_complement', 'ENFA.is_deterministic', 'ENFA.get_difference', 'ENFA.to_deterministic']}
+_PD = 'pyformlang/finite_automaton/deterministic_finite_automaton.py'
+_PN = 'pyformlang/finite_automaton/nondeterministic_finite_automaton.py'
+_PF = 'pyformlang/finite_automaton/finite_automaton.py'
+TARGETS.update({f'ENFA.{m}': (_PF, f'FiniteAutomaton.{m}') for m in
+                ['add_transition', 'remove_transition', 'add_start_state', 'remove_start_state', 'add_final_state', 'remove_final_state',
+                 '__call__', 'is_final_state', 'add_symbol']})
+TARGETS.update({'DFA.add_start_state': (_PD, 'DeterministicFiniteAutomaton.add_start_state'),
+                'DFA.remove_start_state': (_PD, 'DeterministicFiniteAutomaton.remove_start_state'),
+                'NFA.add_transition': (_PN, 'NondeterministicFiniteAutomaton.add_transition')})
+W.super_of = {'NFA': ENFA, 'DFA': NFA}
+TARGETS.update({'NFA.accepts': (_PN, 'NondeterministicFiniteAutomaton.accepts'), 'NFA.is_deterministic': (_PN, 'NondeterministicFiniteAutomaton.is_deterministic'),
+                'DFA.accepts': (_PD, 'DeterministicFiniteAutomaton.accepts'), 'DFA.is_deterministic': (_PD, 'DeterministicFiniteAutomaton.is_deterministic')})
+TARGETS.update({'DFA.copy': (_PD, 'DeterministicFiniteAutomaton.copy'), 'DFA.to_deterministic': (_PD, 'DeterministicFiniteAutomaton.to_deterministic'),
+                'NFA.to_deterministic': (_PN, 'NondeterministicFiniteAutomaton.to_deterministic')})
 
 # contracts of this world that are verified from their own source in another module
 VERIFIED_ELSEWHERE = {'Namer.get_merged': 'contracts.fa_namer (StateNamer._get)', 'Namer.get_pair': 'contracts.fa_namer (StateNamer._get)'}
